@@ -2,6 +2,7 @@ import FrappyModel.Spec.C01
 import FrappyModel.Base.NumCompat
 import FrappyModel.Datatypes.Variants
 import FrappyModel.Datatypes.CompatUsers
+import FrappyModel.Datatypes.DatainfoWF
 /-
 C03 — Datatype descriptions, copies and compatibility verdicts are faithful.
 
@@ -493,6 +494,20 @@ def judgeDerived (d : Derived F) : List String :=
    | some j => if jsonEq d.datainfo j then [] else ["datainfo"]
    | none => if d.built then ["datainfo"] else []) ++
   (if d.probes.all (fun p => outcomeEq p.original p.derived) then [] else ["behaviour"])
+
+/-- a tree outside the quantifier (some scaled limit is not the grid value of its grid index): the description holds
+grid indices, so it cannot say where such a limit is, and the statement promises nothing about the behaviour of the
+derived type.  What is still judged: the derived type exists and its description is the identical datainfo — the
+description is a fixed point of the round trip for every tree (`rebuild_snaps`, `copy_snaps`). -/
+def judgeDescribed (d : Derived F) : List String :=
+  (if d.built then [] else ["built"]) ++
+  (match d.datainfo' with
+   | some j => if jsonEq d.datainfo j then [] else ["datainfo"]
+   | none => if d.built then ["datainfo"] else [])
+
+/-- the monitor of the rebuild / copy streams: the tree decides (in Lean) which clauses apply -/
+def judgeRebuilt (t : DInfo F) (d : Derived F) : List String :=
+  if t.exportableB then judgeDerived d else judgeDescribed d
 
 /-- what the harness observed around mutating a copy: kinds of the mutable objects reachable from both the
 original and the copy; datainfo and probe outcomes of the original before and after the mutation -/
